@@ -131,6 +131,13 @@ def ensure(config='default', repo=REPO):
         cmd = ['cargo', '+nightly', 'check', '--offline', '-q'] + args
         log('running driver: %s (in %s)' % (' '.join(cmd), repo))
         p = subprocess.run(cmd, cwd=repo, env=env, stdout=subprocess.PIPE, stderr=subprocess.STDOUT, text=True)
+        if p.returncode != 0 and 'could not execute process' in p.stdout:
+            # the compiler process could not be started (a transient lack of memory / process slots on a busy machine): once more
+            log('driver could not be started, retrying once')
+            time.sleep(5)
+            for fn_ in os.listdir(out):
+                os.remove(os.path.join(out, fn_))
+            p = subprocess.run(cmd, cwd=repo, env=env, stdout=subprocess.PIPE, stderr=subprocess.STDOUT, text=True)
         if p.returncode != 0:
             sys.stderr.write(p.stdout[-6000:])
             shutil.rmtree(out, ignore_errors=True)
